@@ -8,6 +8,8 @@ settings.  In-process sessions (quick tier) replace the name `subprocess` that
 machine either; `assert_no_real_sudo` refuses to run otherwise.)
 """
 import contextlib
+import io
+import sys
 import json
 import os
 import shutil
@@ -78,7 +80,14 @@ class ScriptedSubprocess(object):
         cmd = list(cmd)
         verb = 'minimize' if 'minimize' in cmd else 'restore' if 'restore' in cmd else \
             'kill' if 'kill' in cmd else 'other'
-        self.log.add('sudo', verb, cmd, None if env is None else ('os.environ' if env is os.environ else 'other'))
+        n = None
+        if verb == 'kill' and LoggedLayer.current is not None:
+            try:
+                pr = LoggedLayer.current._procs.get(int(cmd[-1]))
+                n = pr.rec['n'] if pr is not None else None
+            except ValueError:
+                pass
+        self.log.add('sudo', verb, cmd, None if env is None else ('os.environ' if env is os.environ else 'other'), n)
         if cmd[:1] != ['sudo']:
             raise lib.InfraError('denoise_client ran something that is not sudo: %r' % (cmd,))
         r = self.report
@@ -148,8 +157,20 @@ class LoggedLayer(_BaseLayer):
                         rec['stop_logged'] = True
                         layer.log.add('stop', rec['n'], 'killed' if killed else 'never-killed')
             else:
+                if getattr(o, 'delay', 0):
+                    if proc.killed.wait(o.delay):        # killed while running
+                        proc.returncode = -9
+                        with layer.lock:
+                            if not rec.get('stop_logged'):
+                                rec['stop_logged'] = True
+                                layer.log.add('stop', rec['n'], 'killed')
+                        out = o.out.encode('utf-8') if isinstance(o.out, str) else o.out
+                        return out, (b'' if proc._stderr_pipe else None)
                 proc.returncode = o.rc
-                layer.log.add('stop', rec['n'], 'exit')
+                with layer.lock:
+                    if not rec.get('stop_logged'):
+                        rec['stop_logged'] = True
+                        layer.log.add('stop', rec['n'], 'exit')
             out = o.out.encode('utf-8') if isinstance(o.out, str) else o.out
             return out, (b'' if proc._stderr_pipe else None)
         proc.communicate = communicate
@@ -210,3 +231,64 @@ def run_denoise_session(workdir, argv, script, report, cset=None, num_cores=4, n
                 break
             time.sleep(0.02)
     return res, list(log.events)
+
+
+# ------------------------------------------------------ parallel scheduler
+def run_parallel_session(workdir, argv, script, report, cpu_count=8, cset=None, num_cores=4, no_denoise=False,
+                         wait=8.0):
+    """like `run_denoise_session`, for the parallel scheduler (`cpu_count` > 1 and runs that are
+    not exclusive).  The scripted world stays in place until every `BenchmarkThread` has ended:
+    after an interrupt the worker threads of the pinned tree keep starting processes, and they
+    must never reach a real `Popen` / `sudo`.  Returns (SessionResult, events, threads_left)."""
+    log = EventLog()
+
+    def logged_script(rec):
+        out = script(rec)
+        log.add('start', rec['n'], rec['args'], rec['env'])
+        return out
+    with denoise_world(report, log, cset, num_cores):
+        layer = LoggedLayer(logged_script)
+        res = drive.SessionResult()
+        args = ['rebench'] + list(argv) + (['-D'] if no_denoise else [])
+        drive._fast_environment()
+        old_cwd, old_argv, old_cpu = os.getcwd(), sys.argv, drive.rb_exec.cpu_count
+        out, err = io.StringIO(), io.StringIO()
+        os.chdir(workdir)
+        sys.argv = args
+        drive.rb_exec.cpu_count = lambda: cpu_count
+        try:
+            with contextlib.redirect_stdout(out), contextlib.redirect_stderr(err), drive.scripted(layer):
+                try:
+                    try:
+                        ok = drive.rb_main.ReBench().run(args)
+                        res.exit = 0 if ok else 1
+                    except KeyboardInterrupt:
+                        res.exit = 2
+                    except drive.rb_main.UIError:
+                        res.exit = 3
+                    except drive.rb_main.BenchmarkThreadExceptions as e:
+                        res.exit = 4
+                        res.thread_exceptions = ['%s: %s' % (type(x).__name__, str(x)[:200]) for x in e.exceptions]
+                except BaseException as e:   # what would end in a traceback
+                    res.crash = (type(e).__name__, str(e)[:300], [])
+                log.add('session-returned')
+                # the interpreter would now wait for the non-daemon worker threads
+                deadline = time.time() + wait
+                left = [t for t in threading.enumerate() if t.name.startswith('BenchmarkThread')]
+                for t in left:
+                    t.join(max(0.0, deadline - time.time()))
+                left = [t.name for t in left if t.is_alive()]
+                # … and for the scripted processes they started
+                while time.time() < deadline:
+                    started = sum(1 for e in log.events if e[0] == 'start')
+                    stopped = sum(1 for e in log.events if e[0] == 'stop')
+                    if stopped >= started:
+                        break
+                    time.sleep(0.02)
+        finally:
+            os.chdir(old_cwd)
+            sys.argv = old_argv
+            drive.rb_exec.cpu_count = old_cpu
+        res.stdout, res.stderr = out.getvalue(), err.getvalue()
+        res.starts, res.kills = layer.starts, layer.kills
+    return res, list(log.events), left
